@@ -75,8 +75,14 @@ def run_property(modname: str, tier: str, seed: int, update_ledger: bool = False
     timeout_ms = int(os.environ.get("PYVC_TIMEOUT_MS", "20000" if tier == "quick" else "90000"))
     results: list[FunctionResult] = []
     all_obls = []
+    drop = getattr(mod, "DROP_CLAUSES", None)
+    drop_re = re.compile(drop) if drop else None
     for s in specs:
         r = verify(engine, s)
+        r.generated = len([o for o in r.obligations if not o.clause.startswith("cover")])  # type: ignore[attr-defined]
+        if drop_re is not None:
+            # clauses that belong to other properties (the same contract instance serves several)
+            r.obligations = [o for o in r.obligations if not drop_re.search(o.clause)]
         results.append(r)
         all_obls.extend(r.obligations)
     verdicts = discharge(all_obls, timeout_ms=timeout_ms, cross=(tier == "thorough"))
@@ -108,7 +114,7 @@ def run_property(modname: str, tier: str, seed: int, update_ledger: bool = False
             faults.append(f"{r.label}: engine error: {r.error.strip().splitlines()[-1]}")
         elif r.out_of_reach:
             (undecided if r.label in ledger else undecided).append(f"{r.label}: out of reach: {r.out_of_reach}")
-        elif not [o for o in r.obligations if not o.clause.startswith("cover")]:
+        elif not getattr(r, "generated", 0):
             faults.append(f"{r.label}: zero obligations generated")
     for fn, clauses in ledger.items():
         if only and only not in fn:
@@ -274,7 +280,7 @@ def run_property(modname: str, tier: str, seed: int, update_ledger: bool = False
     for v, k in known_hit:
         if k["raw"] not in seen_k:
             seen_k.add(k["raw"])
-            print(f"KNOWN-FINDING: property={prop} {k['text']}")
+            print(f"KNOWN-FINDING: {k['text']}")
     for s in standins:
         for k in s.get("known_lines", []):
             if k not in seen_k:
